@@ -56,6 +56,85 @@ def scenarios(rng, quick):
     return sc
 
 
+BIG = 'grammar big;\nstart = { stmt };\nstmt = ID "=" expr ";" | "if" expr "then" stmt "else" stmt | "while" expr "do" stmt | "{" { stmt } "}";\n' \
+      'expr = expr "+" term | expr "-" term | term;\nterm = term "*" atom | term "/" atom | atom;\natom = ID | NUM | STR | "(" expr ")";\n' \
+      'ID = /[a-zA-Z_][a-zA-Z0-9_]*/;\nNUM = /[0-9]+(\\.[0-9]+)?([eE][0-9]+)?/;\nSTR = /"([a-z]|[A-Z]|[0-9]| )*"/;\n'
+
+
+def write_faults(ctx, emerge, root, quick, stats):
+    """Real write failures: the binary under a soft RLIMIT_FSIZE of L bytes with SIGXFSZ ignored - write(2) then fails with
+    EFBIG once a file has L bytes, at whatever point of the template's output that is. For every L the run is compared
+    with the property (success and status 0 iff every file is complete) and with the CLI model under the corresponding
+    fault sequence (`half` for exactly the files longer than L)."""
+    import resource, signal
+    specs = [("calc", VALID), ("big", BIG)]
+    for gname, text in specs:
+        box = os.path.join(root, "wf_" + gname); os.makedirs(box)
+        fp = os.path.join(box, "g.ebnf"); open(fp, "w").write(text)
+        ref = os.path.join(box, "ref"); os.makedirs(ref)
+        p = subprocess.run([emerge, "-out", ref, fp], stdout=subprocess.PIPE, stderr=subprocess.STDOUT, timeout=120)
+        if p.returncode != 0:
+            ctx.add_broken("write-fault sweep: the reference run failed", p.stdout.decode("utf-8", "replace")[-600:])
+            continue
+        want = {fn: open(os.path.join(ref, gname, fn), "rb").read() for fn in FILES}
+        sizes = sorted(set(len(v) for v in want.values()))
+        limits = {0, 1}
+        for sz in sizes:
+            for d in (1, 2, 17, 100, 511, 1000, 4095, 4096, 4097, sz // 2, sz // 3):
+                if 0 <= sz - d:
+                    limits.add(sz - d)
+            for b in range(4096, sz + 1, 4096):
+                limits.update((b - 1, b, b + 1))
+            limits.add(sz)
+        limits = sorted(limits)
+        if quick:
+            keep = set(ctx.rng.sample(limits, min(60, len(limits)))) | {0, 1, sizes[-1], sizes[-1] - 1, sizes[-1] - 100, sizes[-1] - 4095, sizes[0] - 1}
+            limits = [l for l in limits if l in keep]
+        lines, runs = [], []
+        for L in limits:
+            od = os.path.join(box, "o%d" % L); os.makedirs(od)
+            def pre(L=L):
+                signal.signal(signal.SIGXFSZ, signal.SIG_IGN)
+                resource.setrlimit(resource.RLIMIT_FSIZE, (L, resource.getrlimit(resource.RLIMIT_FSIZE)[1]))
+            p = subprocess.run([emerge, "-out", od, fp], stdout=subprocess.PIPE, stderr=subprocess.STDOUT, timeout=120, preexec_fn=pre)
+            out = p.stdout.decode("utf-8", "replace")
+            got = {}
+            for fn in FILES:
+                q = os.path.join(od, gname, fn)
+                got[fn] = open(q, "rb").read() if os.path.isfile(q) else None
+            shutil.rmtree(od)
+            incomplete = sorted(fn for fn in FILES if got[fn] is not None and got[fn] != want[fn])
+            missing = sorted(fn for fn in FILES if got[fn] is None)
+            success = int("Successful!" in out)
+            stats["write_fault_runs"] = stats.get("write_fault_runs", 0) + 1
+            stats["write_fault_failures_reported"] = stats.get("write_fault_failures_reported", 0) + int(p.returncode != 0)
+            rec = dict(specification=gname, file_size_limit=L, exit=p.returncode, success=success, incomplete=incomplete, missing=missing,
+                       sizes={fn: (len(got[fn]) if got[fn] is not None else None) for fn in FILES}, full_sizes={fn: len(want[fn]) for fn in FILES}, output=out[-500:])
+            if (p.returncode == 0 or success) and (incomplete or missing):
+                ctx.add_violation("success was announced (or status 0 returned) although a file of the package was not completely written", rec)
+            elif p.returncode == 0 and not success:
+                ctx.add_violation("exit status 0 without success", rec)
+            elif p.returncode != 0 and not out.strip():
+                ctx.add_violation("a failure without any message", rec)
+            for fn in incomplete:
+                if not want[fn].startswith(got[fn]):
+                    ctx.add_violation("an incompletely written file is not a prefix of the complete one", rec)
+            halves = [fn for fn in FILES if len(want[fn]) > L]
+            lines.append("perr=0 usage=0 help=0 version=0 out=%s name=- file=1 input=readable parse=1 gname=%s lexer=1 parser=1 idvalid=1 outstate=dir pkgstate=missing halves=%s" % (hx("O"), hx(gname), ",".join(halves)))
+            runs.append((rec, halves))
+        model = ctx.run_model("cli", lines)
+        nc = 0
+        for (rec, halves), m in zip(runs, model):
+            f = dict(x.split("=", 1) for x in m.split(" "))
+            minc = sorted(x for x in f.get("incomplete", "").split(",") if x)
+            if int(f["exit"]) != rec["exit"] or int(f["success"]) != rec["success"] or minc != rec["incomplete"] or rec["missing"]:
+                nc += 1
+                if nc <= 2:
+                    ctx.add_broken("correspondence: the CLI model under write faults and the binary under a file-size limit disagree",
+                                   "limit=%d\nbinary: exit=%s success=%s incomplete=%s missing=%s\nmodel : %s" % (rec["file_size_limit"], rec["exit"], rec["success"], rec["incomplete"], rec["missing"], m))
+        stats["write_fault_disagreements"] = stats.get("write_fault_disagreements", 0) + nc
+
+
 def run(ctx):
     quick = ctx.tier == "quick"
     ctx.build_go()
@@ -154,6 +233,7 @@ def run(ctx):
                 spec_flags["parse"], hx(gname), spec_flags["lexer"], spec_flags["parser"], idvalid if idvalid is not None else 1, outstate, pkgstate))
             shutil.rmtree(box)
         model = ctx.run_model("cli", model_lines)
+        write_faults(ctx, emerge, root, quick, stats)
     finally:
         shutil.rmtree(root, ignore_errors=True)
     # reference content of the six files: one successful in-process generation
@@ -194,11 +274,11 @@ def run(ctx):
                 ctx.add_broken("correspondence: the CLI model and the binary disagree on %s" % json.dumps(s),
                                "args=%s\nbinary: exit=%s success=%s created=%s\nmodel : %s\noutput: %s" % (a["args"], a["exit"], a["success"], got_created, m, a["output"][-300:]))
     cov = {"evaluations": len(actual), "distinct_nontrivial": len(distinct),
-           "rule": "the real binary (built from the working tree) run in a fresh sandbox directory per scenario: flags (-debug -verbose -help -version -h, unknown flag, -name with/without value, -out) x input classes (valid; lexical, syntax, semantic error; token conflict; invalid pattern; LALR conflict; empty; missing file; directory; no file argument) x output location (cwd default, existing dir, missing, a file) x pre-existing <out>/<name> (missing, directory, directory holding lexer.go/types.go, file, symlink to a directory, dangling symlink) x names (usable and unusable identifiers); before/after snapshots (kind, mode, size, SHA-256 of every path), exit status, final message; non-trivial = distinct scenario",
+           "rule": "the real binary (built from the working tree) run in a fresh sandbox directory per scenario: flags (-debug -verbose -help -version -h, unknown flag, -name with/without value, -out) x input classes (valid; lexical, syntax, semantic error; token conflict; invalid pattern; LALR conflict; empty; missing file; directory; no file argument) x output location (cwd default, existing dir, missing, a file) x pre-existing <out>/<name> (missing, directory, directory holding lexer.go/types.go, file, symlink to a directory, dangling symlink) x names (usable and unusable identifiers); before/after snapshots (kind, mode, size, SHA-256 of every path), exit status, final message; plus write faults: two valid specifications run under RLIMIT_FSIZE = L with SIGXFSZ ignored for L swept around every file size, every 4096-byte boundary and 0/1, each compared with a reference run byte for byte and with the CLI model under the corresponding `half` faults; non-trivial = distinct scenario",
            "samples": [actual[0]["args"], actual[-1]["args"]], "outcomes": stats, "correspondence_disagreements": ncorr,
            "trusted_base": TRUSTED_BASE + ["Linux semantics of mkdir(2) and open(2) with O_CREAT|O_EXCL (fail with EEXIST on any existing path, including dangling symbolic links)",
                                          "translator fact fsops: the only calls in the tool's non-test code that can change the file system (C16_only_modelled_calls)",
-                                         "failing write(2)/close(2) (ENOSPC, EIO) are covered by the theorems over the fault oracle only: they are not produced in the sandbox; an unreadable input cannot be produced either (the checks run as root)"]}
+                                         "failing write(2) is produced with a file-size limit (EFBIG) at swept byte positions; other errno values (ENOSPC, EIO) and a failing close(2) are covered by the theorems over the fault oracle only; an unreadable input cannot be produced either (the checks run as root)"]}
     return ctx.finish(LEVEL, cov, ["reading and checking the specification is abstracted as three booleans (parse, token automaton, LALR table) computed by the rest of emerge"])
 
 
